@@ -305,6 +305,8 @@ def resolve(c, recv):
         return getattr(ttb, m)
     if cls == "utils":
         return getattr(ttb.pyttb_utils, m)
+    if cls == "func":
+        return getattr(ttb, m)
     if c["kind"] == "ctor":
         return CLASSES[cls]
     if c["kind"] == "static":
@@ -312,6 +314,26 @@ def resolve(c, recv):
     if c["kind"] == "prop":
         return lambda: getattr(recv, m)
     return getattr(recv, m)
+
+
+def changed_operands(c, operands, before, recv, args, kwargs):
+    """Operand positions whose array changed bit-wise, or whose holder now holds another array
+    (an attribute or list element of an operand object was rebound)."""
+    mut = {i for i, (_, a) in enumerate(operands) if snap(a) != before[i]}
+    after = []
+    if c["kind"] != "inplace":
+        walk(recv, "self", after)
+    else:
+        after.extend((n, a) for n, a in operands if n == "self" or n.startswith("self."))
+    for i, a in enumerate(args):
+        walk(a, f"a{i}", after)
+    for k in kwargs:
+        walk(kwargs[k], f"k.{k}", after)
+    now = dict(after)
+    for i, (n, _) in enumerate(operands):
+        if n not in now or snap(now[n]) != before[i]:
+            mut.add(i)
+    return sorted(mut)
 
 
 def observe(c):
@@ -334,7 +356,7 @@ def observe(c):
                 result = resolve(c, recv)(*args, **kwargs)
     except Exception as e:  # noqa: BLE001
         obs["reject"] = f"{type(e).__name__}: {str(e)[:120]}"
-        obs["mut"] = [i for i, (_, a) in enumerate(operands) if snap(a) != before[i]]
+        obs["mut"] = changed_operands(c, operands, before, recv, args, kwargs)
         return obs
     finally:
         try:
@@ -342,7 +364,7 @@ def observe(c):
             plt.close("all")
         except Exception:  # noqa: BLE001
             pass
-    obs["mut"] = [i for i, (_, a) in enumerate(operands) if snap(a) != before[i]]
+    obs["mut"] = changed_operands(c, operands, before, recv, args, kwargs)
     results = []
     if c["kind"] == "inplace":
         walk(recv, "", results)
@@ -392,6 +414,9 @@ def case(cls, method, label, recv=None, args=(), kwargs=None, model=COMP, kind="
 
 def perms_for(rng, shape, tier):
     n = len(shape)
+    if tier == "thorough" and n <= 4:
+        import itertools
+        return [list(q) for q in itertools.permutations(range(n))]
     out = [list(range(n))]
     if n >= 2:
         out.append(list(reversed(range(n))))
@@ -445,7 +470,7 @@ def tensor_cases(rng, tier):
     out.append(case(C, "from_function", "ones", None, [fn("ones"), py([2, 3])], {}, COMP, "static"))
     out.append(case(C, "from_function", "ones_f", None, [fn("ones_f"), py([2, 3])], {}, COMP, "static"))
     # receivers ----------------------------------------------------------------------------
-    shapes = DENSE_SHAPES if tier == "quick" else DENSE_SHAPES + [gen.shape(rng, 1, 4, 3) for _ in range(6)]
+    shapes = DENSE_SHAPES if tier == "quick" else DENSE_SHAPES + [gen.shape(rng, 1, 4, 3) for _ in range(16)]
     for shape in shapes:
         N = len(shape)
         X = Tspec(rng, shape)
@@ -622,7 +647,7 @@ def sptensor_cases(rng, tier):
                         [arr([2 * nz, N], [x for k in range(N) for x in [s["subs"][i][k] for i in range(nz)] * 2], "i", "C"),
                          arr([2 * nz, 1], s["vals"] * 2, "f"), py(shape)], {"function_handle": py("max")}, COMP, "static"))
     out.append(case(C, "from_function", "", None, [fn("ones"), py([3, 4]), py(5)], {}, COMP, "static"))
-    shapes = SPARSE_SHAPES if tier == "quick" else SPARSE_SHAPES + [gen.shape(rng, 1, 4, 3) for _ in range(6)]
+    shapes = SPARSE_SHAPES if tier == "quick" else SPARSE_SHAPES + [gen.shape(rng, 1, 4, 3) for _ in range(16)]
     for shape in shapes:
         N = len(shape)
         for klass in ("some", "empty"):
@@ -637,9 +662,9 @@ def sptensor_cases(rng, tier):
                 out.append(case(C, m, lab, X))
             for m in ("ndims", "nnz", "order"):
                 out.append(case(C, m, lab, X, kind="prop"))
-            for p in perms_for(rng, shape, tier)[:3]:
+            for p in (perms_for(rng, shape, tier)[:3] if tier == "quick" else perms_for(rng, shape, tier)):
                 out.append(case(C, "permute", f"{lab}/{'id' if p == sorted(p) else 'perm'}", X, [iarr(p)]))
-            for t in reshape_targets(shape)[:3]:
+            for t in (reshape_targets(shape)[:3] if tier == "quick" else reshape_targets(shape)):
                 out.append(case(C, "reshape", lab, X, [py(t)]))
             out.append(case(C, "squeeze", lab, X))
             out.append(case(C, "to_sptenmat", lab, X, [iarr([0])]))
@@ -712,7 +737,8 @@ def sptensor_cases(rng, tier):
         out.append(case(C, "__setitem__", "empty-recv/subs", E, [arr([1, N], [0] * N, "i", "C"), arr([1, 1], [4], "f")],
                         {}, si("rebuild"), "inplace"))
         if N == 1:
-            out.append(case(C, "__setitem__", "linear-1d", X, [py(0), py(3.0)], {}, si("rebuild"), "inplace"))
+            out.append(case(C, "__setitem__", "linear-1d", X, [py(0), py(3.0)], {},
+                            si("change" if [0] in X["subs"] else "rebuild"), "inplace"))
     X = Sspec(rng, [2, 2, 3])
     out.append(case(C, "contract", "", X, [py(0), py(1)]))
     out.append(case(C, "contract", "2d", Sspec(rng, [3, 3]), [py(0), py(1)]))
@@ -744,7 +770,7 @@ def ktensor_cases(rng, tier):
         out.append(case(C, "from_vector", "noweights", None, [farr(list(range(1, tot + 1))), py(shape), py(False)], {}, COMP, "static"))
         out.append(case(C, "from_vector", "row", None, [arr([1, tot], list(range(1, tot + 1))), py(shape), py(False)], {}, COMP, "static"))
         out.append(case(C, "from_function", "", None, [fn("ones"), py(shape), py(2)], {}, COMP, "static"))
-    shapes = K_SHAPES if tier == "quick" else K_SHAPES + [[2, 1, 3], [2, 2, 2, 2]]
+    shapes = K_SHAPES if tier == "quick" else K_SHAPES + [[2, 1, 3], [2, 2, 2, 2]] + [gen.shape(rng, 1, 4, 4) for _ in range(8)]
     for shape in shapes:
         n = len(shape)
         for unit in (False, True):
@@ -764,7 +790,7 @@ def ktensor_cases(rng, tier):
             out.append(case(C, "extract", f"{lab}/none", X, [], {}, M(C, "copy", n=n)))
             out.append(case(C, "extract", f"{lab}/int", X, [py(1)]))
             out.append(case(C, "extract", f"{lab}/arr", X, [iarr([1, 0])]))
-            for p in perms_for(rng, shape, tier)[:3]:
+            for p in (perms_for(rng, shape, tier)[:3] if tier == "quick" else perms_for(rng, shape, tier)):
                 out.append(case(C, "permute", f"{lab}/{'id' if p == sorted(p) else 'perm'}", X, [iarr(p)], {},
                                 M(C, "permute", n=n, perm=p)))
             # ttv
@@ -861,7 +887,7 @@ def ttensor_cases(rng, tier):
             out.append(case(C, "innerprod", lab, X, [o]))
         out.append(case(C, "__mul__", "scalar", X, [py(2.0)]))
         out.append(case(C, "__rmul__", "scalar", X, [py(2.0)]))
-        for p in perms_for(rng, shape, tier)[:3]:
+        for p in (perms_for(rng, shape, tier)[:3] if tier == "quick" else perms_for(rng, shape, tier)):
             out.append(case(C, "permute", "id" if p == sorted(p) else "perm", X, [iarr(p)]))
         out.append(case(C, "ttv", "one", X, [vec(rng, shape[0]), py(0)]))
         out.append(case(C, "ttv", "all", X, [lst([vec(rng, d) for d in shape])]))
@@ -1029,14 +1055,34 @@ def utils_cases(rng, tier):
     out.append(case("utils", "to_memory_order", "F-F-copy", None, [mat(rng, 2, 3, "F"), py("F")], {"copy": py(True)},
                     M("utils", "to_memory_order", copy=True)))
     out.append(case("utils", "gather_wrap_dims", "", None, [py(3), iarr([0])], {}))
+    # module-level constructors and khatrirao
+    out.append(case("func", "tendiag", "", None, [farr([1, 2, 3])]))
+    out.append(case("func", "tendiag", "shape", None, [arr([1, 2], [4, 5]), py((2, 3))]))
+    out.append(case("func", "sptendiag", "", None, [farr([1, 2, 3])]))
+    out.append(case("func", "sptendiag", "shape", None, [arr([2, 1], [4, 5]), py((3, 2))]))
+    out.append(case("func", "tenones", "", None, [py((2, 3))]))
+    out.append(case("func", "tenzeros", "", None, [iarr([2, 3])]))
+    out.append(case("func", "tenrand", "", None, [py((2, 3))]))
+    out.append(case("func", "teneye", "", None, [py(2), py(2)]))
+    out.append(case("func", "sptenrand", "", None, [py((3, 4))], {"nonzeros": py(3)}))
+    out.append(case("func", "khatrirao", "two", None, [mat(rng, 2, 3), mat(rng, 4, 3, "C")]))
+    out.append(case("func", "khatrirao", "reverse", None, [mat(rng, 2, 2), mat(rng, 3, 2), mat(rng, 2, 2)], {"reverse": py(True)}))
+    out.append(case("func", "khatrirao", "one", None, [mat(rng, 2, 3)]))
     return out
 
 
 def alg_cases(rng, tier):
     out = []
-    shape = [3, 4, 2]
+    for shape in ([[3, 4, 2]] if tier == "quick" else [[3, 4, 2], [4, 3], [2, 3, 2, 2]]):
+        out += _alg_cases(rng, shape)
+    return out
+
+
+def _alg_cases(rng, shape):
+    out = []
     N = len(shape)
     R = 2
+    rot = list(range(1, N)) + [0]
     datas = [("tensor", Tpos(rng, shape), 1), ("sptensor", Spos(rng, shape), 2)]
     AF = {"cls": "alg", "method": "fresh", "params": {}, "auto": "results"}
 
@@ -1051,7 +1097,7 @@ def alg_cases(rng, tier):
         out.append(case("alg", "cp_als", f"{dn}/nvecs", None, [X, py(R)], dict(common, init=py("nvecs")), AF, "pure"))
         out.append(case("alg", "cp_als", f"{dn}/init", None, [X, py(R)], dict(common, init=K0), ainit(m, []), "pure"))
         out.append(case("alg", "cp_als", f"{dn}/init+dimorder", None, [X, py(R)],
-                        dict(common, init=K0, dimorder=iarr([2, 0, 1]), optdims=arr([1, N], [0, 1, 2], "i")),
+                        dict(common, init=K0, dimorder=iarr(rot), optdims=arr([1, N], list(range(N)), "i")),
                         ainit(m, ["2.params.dimorder", "2.params.optdims"]), "pure"))
         out.append(case("alg", "cp_als", f"{dn}/init/nofixsigns", None, [X, py(R)], dict(common, init=K0, fixsigns=py(False)),
                         ainit(m, []), "pure"))
@@ -1078,18 +1124,18 @@ def alg_cases(rng, tier):
                             dict(gk, init=Kspec(rng, shape, R, pos=True)), AF, "pure"))
     # dense-only algorithms
     X = Tspec(rng, shape)
-    out.append(case("alg", "tucker_als", "random", None, [X, py([2, 2, 2])], {"maxiters": py(2), "printitn": py(0)}, AF, "pure"))
-    out.append(case("alg", "tucker_als", "rank-array", None, [X, iarr([2, 2, 2])], {"maxiters": py(2), "printitn": py(0)}, AF, "pure"))
+    out.append(case("alg", "tucker_als", "random", None, [X, py([2] * N)], {"maxiters": py(2), "printitn": py(0)}, AF, "pure"))
+    out.append(case("alg", "tucker_als", "rank-array", None, [X, iarr([2] * N)], {"maxiters": py(2), "printitn": py(0)}, AF, "pure"))
     U0 = lst([mat(rng, d, 2) for d in shape])
     out.append(case("alg", "tucker_als", "init", None, [X, py(2)], {"maxiters": py(2), "printitn": py(0), "init": U0},
                     {"cls": "alg", "method": "returns_init", "params": {"m": 1}, "auto": "alg_init", "views": []}, "pure"))
     out.append(case("alg", "tucker_als", "init+dimorder", None, [X, py(2)],
-                    {"maxiters": py(2), "printitn": py(0), "init": U0, "dimorder": iarr([1, 0, 2])},
+                    {"maxiters": py(2), "printitn": py(0), "init": U0, "dimorder": iarr(rot)},
                     {"cls": "alg", "method": "returns_init", "params": {"m": 1}, "auto": "alg_init", "views": ["2.params.3"]}, "pure"))
     out.append(case("alg", "hosvd", "tol", None, [X, py(0.5)], {"verbosity": py(0)}, AF, "pure"))
-    out.append(case("alg", "hosvd", "ranks", None, [X, py(0.5)], {"verbosity": py(0), "ranks": iarr([0, 2, 0])}, AF, "pure"))
+    out.append(case("alg", "hosvd", "ranks", None, [X, py(0.5)], {"verbosity": py(0), "ranks": iarr([0, 2] + [0] * (N - 2))}, AF, "pure"))
     out.append(case("alg", "hosvd", "ranks2d+dimorder", None, [X, py(0.1)],
-                    {"verbosity": py(0), "ranks": arr([1, 3], [2, 0, 1], "i"), "dimorder": iarr([2, 1, 0]), "sequential": py(False)}, AF, "pure"))
+                    {"verbosity": py(0), "ranks": arr([1, N], [2, 0] + [1] * (N - 2), "i"), "dimorder": iarr(rot), "sequential": py(False)}, AF, "pure"))
     TT = TTspec(rng, shape)
     out.append(case("alg", "cp_als", "ttensor/init", None, [TT, py(R)],
                     {"maxiters": py(2), "printitn": py(0), "init": Kspec(rng, shape, R, pos=True)},
@@ -1156,11 +1202,10 @@ def judge(c, obs, mod):
         tags.append(f"spec:{spec}")
     seen = set(tuple(x) for x in obs["share"]) | set(tuple(x) for x in obs["visible"])
     nontrivial = bool(obs["results"] or obs["mut"])
-    if set(map(tuple, obs["share"])) != set(map(tuple, obs["visible"])):
-        # writes through one side must be visible exactly where memory is shared
-        unwritable = True  # a read-only result array cannot be written through
-        if not unwritable:
-            return Verdict("corr", f"{what}: shares_memory and write-through disagree", obs, mod, None, tags)
+    # write-through can only be visible where memory is shared (the converse needs a writable array)
+    if not set(map(tuple, obs["visible"])) <= set(map(tuple, obs["share"])):
+        return Verdict("corr", f"{what}: a write is visible between arrays that np.shares_memory calls disjoint",
+                       obs, mod, None, tags)
     bad_mut = [names[i] for i in obs["mut"] if i not in allowed]
     if bad_mut:
         return Verdict("violation", f"{what} changed its operand(s) {bad_mut}", obs, mod, None, tags)
@@ -1189,7 +1234,8 @@ def judge(c, obs, mod):
 
 
 class OpsFamily(Family):
-    theorems = ("C05_no_visibility", "C05_pure_sound", "C05_fresh_sound", "C05_inplace_only", "C05_table_sound")
+    theorems = ("C05_no_visibility", "C05_pure_sound", "C05_fresh_sound", "C05_inplace_only", "C05_nocopy_within",
+                "C05_table_sound", "C05_table_semantics")
 
     def __init__(self, name, genfn):
         self.name = name
@@ -1278,7 +1324,8 @@ class NumpyPrims(Family):
     """Chains of NumPy calls on arrays of every layout: the model's view / copy decision, shape,
     strides and contiguity flags against NumPy's."""
     name = "numpy_prims"
-    theorems = ("C05_view_iff_fcontig", "C05_transpose_identity_view", "C05_reshape_view_of_fcontig")
+    theorems = ("C05_view_iff_fcontig", "C05_transpose_identity_view", "C05_asF_view_or_copy",
+                "C05_reshape_view_of_fcontig", "C05_asF_reshape_fresh")
 
     def gen(self, rng, tier):
         out = []
@@ -1312,6 +1359,8 @@ class NumpyPrims(Family):
                     cur = nreg - 1
                     prog.append(["asF", cur])
                 elif kind in ("asF", "copy", "squeeze"):
+                    if kind == "squeeze" and all(d == 1 for d in cshape):
+                        continue  # a 0-d result: np.asfortranarray would make it 1-d again
                     prog.append([kind, cur])
                     if kind == "squeeze":
                         cshape = [d for d in cshape if d != 1]
